@@ -11,6 +11,7 @@ import (
 	"image"
 	"io"
 	"math/rand"
+	"net"
 	"net/textproto"
 	"os"
 	"path/filepath"
@@ -19,6 +20,7 @@ import (
 	"runtime/debug"
 	"strconv"
 	"strings"
+	"syscall"
 	"time"
 
 	"github.com/brutella/hc"
@@ -71,6 +73,7 @@ type viol struct {
 	Sig    string                 `json:"sig"`
 	What   string                 `json:"what"`
 	Detail map[string]interface{} `json:"detail,omitempty"`
+	Closed bool                   `json:"-"` // the failure is a connection closed without an answer (a claimed panic explains it)
 	Incon  string                 `json:"-"` // set instead of a verdict when "no answer" could not be decided
 	Wedged bool                   `json:"-"` // the bounded-progress rule confirmed a missing answer
 }
@@ -109,6 +112,7 @@ func (w *world) failure(c *refctl.Conn, sigPrefix, what string, err error) *viol
 	}
 	if terr != nil {
 		v.Sig += ":" + kind
+		v.Closed = kind == "closed"
 	}
 	return v
 }
@@ -356,6 +360,8 @@ type pending struct {
 	rejects int
 	t0      time.Time
 	spent   time.Duration
+
+	closedViols []viol
 }
 
 type child struct {
@@ -447,7 +453,7 @@ func (w *world) dial() (*refctl.Conn, error) {
 	if err != nil {
 		return nil, err
 	}
-	c.Timeout = 15 * time.Second
+	c.Timeout = 10 * time.Second // watchdog only: a missing answer is decided by the bounded-progress rule
 	return c, nil
 }
 
@@ -670,6 +676,11 @@ func (ch *child) addV(p *pending, v *viol, prefix string) {
 	if p.rq != nil {
 		wit = ch.witness(p)
 	}
+	if v.Closed {
+		// reported only if no panic line explains the closed connection (decided when the panics are claimed)
+		p.closedViols = append(p.closedViols, viol{Sig: v.Sig, What: prefix + v.What, Detail: wit})
+		return
+	}
 	p.addViol(v.Sig, prefix+v.What, wit)
 }
 
@@ -701,6 +712,10 @@ func (ch *child) runCase(d caseDesc) {
 	}()
 	app.TakeHCLog()
 	scratch := refctl.NewIdentity(fmt.Sprintf("c13-scratch-%d-%d", ch.b.No, d.ID), p.rnd)
+	if d.Class == "reuse-port" {
+		ch.runReusePort(p)
+		return
+	}
 	cs, err := w.reach(d.State, scratch, p.rnd)
 	p.cs = cs
 	if cs != nil {
@@ -885,6 +900,12 @@ func (ch *child) finishOldest() {
 		p.cs.c.Close()
 		ch.emit(p)
 	}()
+	if ch.wedged {
+		// a missing answer was confirmed meanwhile: the accessory is wedged, nothing more is learnt from waiting here
+		p.res.SameConn = "not-finished-after-wedge"
+		ch.claimPanics(p, p.a.kind)
+		return
+	}
 	if v := ch.w.finishSetupContinuation(p.cs, p.setup, p.rejects); v != nil {
 		p.res.SameConn = "failed"
 		ch.addV(p, v, "")
@@ -948,12 +969,16 @@ func (ch *child) conclude(p *pending, usable bool) {
 	case "answered":
 		res.Counts["answered"]++
 		if rq.MustErr && !res.IsErr {
-			p.addViol("not-an-error:"+d.EP+":"+d.Class, fmt.Sprintf("a message that cannot be processed (%s) was answered %d without an error indication", rq.Variant, a.m.Status), ch.witness(p))
+			group := "body"
+			if d.Class == "unknown-http-method" {
+				group = d.Class
+			}
+			p.addViol(fmt.Sprintf("not-an-error:%s:%s:status-%d", d.EP, group, a.m.Status), fmt.Sprintf("a message that cannot be processed (%s) was answered %d without an error indication", rq.Variant, a.m.Status), ch.witness(p))
 		}
 	}
 
 	// ---- a new connection still works
-	if len(res.Viols) > 0 || ch.n%3 == 0 || a.kind != "answered" {
+	if (len(res.Viols) > 0 || ch.n%3 == 0 || a.kind != "answered") && !ch.wedged {
 		addr, st, v := w.health(p.rnd)
 		res.NewConn = st
 		ch.addV(p, v, "after the hostile message: ")
@@ -974,7 +999,7 @@ func (ch *child) pullPanics() {
 // claimPanics attributes pooled panic lines to the case by remote address (= the client address of its connections).
 func (ch *child) claimPanics(p *pending, outcome string) bool {
 	ch.pullPanics()
-	found := false
+	found, foundAny := false, false
 	var rest []app.HTTPPanic
 	d, res := p.d, &p.res
 	for _, pn := range ch.panics {
@@ -997,13 +1022,22 @@ func (ch *child) claimPanics(p *pending, outcome string) bool {
 		if strings.HasPrefix(site, "characteristic.") {
 			sig = "c12-root:" + sig
 		}
+		if strings.Contains(pn.Text, "interface is nil, not hap.Session") {
+			// the session of the connection is gone although the connection is open: sessions are stored by remote address and the
+			// (late) server-side close of an older connection from the same address and port removed it
+			sig = "panic:session-missing:type-assertion"
+		}
 		found = found || role == "case"
+		foundAny = true
 		res.Counts["handler_panics"]++
 		res.Viols = append(res.Viols, viol{Sig: sig, What: fmt.Sprintf("handler panic (%s) serving %s: %s", role, pn.Remote, pn.Text),
 			Detail: map[string]interface{}{"case": d, "variant": res.Variant, "request_head": res.ReqHead, "panic": pn.Text, "site": site, "stack": firstLines(pn.Stack, 24)}})
 	}
 	ch.panics = rest
-	delete(p.addrs, "") // nothing
+	if !foundAny {
+		p.res.Viols = append(p.res.Viols, p.closedViols...)
+	}
+	p.closedViols = nil
 	return found
 }
 
@@ -1013,4 +1047,129 @@ func firstLines(s string, n int) []string {
 		l = l[:n]
 	}
 	return l
+}
+
+// ---------------------------------------------------------------- a reconnect from the same address and port
+
+func dialFrom(addr string, port int) (*refctl.Conn, error) {
+	d := net.Dialer{Timeout: 10 * time.Second, LocalAddr: &net.TCPAddr{IP: net.IPv4(127, 0, 0, 1), Port: port},
+		Control: func(network, address string, rc syscall.RawConn) error {
+			var e error
+			rc.Control(func(fd uintptr) { e = syscall.SetsockoptInt(int(fd), syscall.SOL_SOCKET, syscall.SO_REUSEADDR, 1) })
+			return e
+		}}
+	c, err := d.Dial("tcp", addr)
+	if err != nil {
+		return nil, err
+	}
+	cn := refctl.NewConn(c)
+	cn.Timeout = 10 * time.Second
+	return cn, nil
+}
+
+// runReusePort: connection A sends malformed HTTP (net/http answers 400 and closes half a second later) and is reset by
+// the peer; the peer reconnects at once from the same address and port (connection B), reaches the state honestly and
+// keeps sending honest requests while the server gets around to closing A.  Every request on B must be answered.
+func (ch *child) runReusePort(p *pending) {
+	w := ch.w
+	d, res := p.d, &p.res
+	a1, err := w.dial()
+	if err != nil {
+		res.Incon = "dial: " + err.Error()
+		return
+	}
+	port := a1.C.LocalAddr().(*net.TCPAddr).Port
+	// net/http answers a header above its limit with 431 and closes the connection half a second later
+	garbage := []byte("GET / HTTP/1.1\r\nHost: a\r\nX-Big: " + strings.Repeat("h", 1100000) + "\r\n\r\n")
+	p.rq = &request{Raw: garbage, Variant: "over-long header (431, closed by the server 0.5 s later) on a connection that the peer resets, then a new connection from the same address and port", Kind: "reuse-port"}
+	res.Variant, res.ReqLen, res.ReqHead = p.rq.Variant, len(garbage), head(garbage, 40)
+	ch.writeJSON(ch.logf, map[string]interface{}{"id": d.ID, "desc": d, "variant": p.rq.Variant, "conn": a1.LocalAddr()})
+	a1.Send(garbage)
+	first := make([]byte, 12)
+	a1.C.SetReadDeadline(time.Now().Add(10 * time.Second))
+	if _, err := io.ReadFull(a1.C, first); err != nil || !strings.HasPrefix(string(first), "HTTP/1.1 4") {
+		a1.Close()
+		res.Outcome = "not-sent"
+		res.Counts["reuse_port_not_possible"]++
+		return
+	}
+	a1.Close() // SO_LINGER 0: reset, the port is free at once
+	var b *refctl.Conn
+	for i := 0; i < 20 && b == nil; i++ {
+		if b, err = dialFrom(w.a.Addr, port); err != nil {
+			time.Sleep(5 * time.Millisecond)
+		}
+	}
+	if b == nil {
+		res.Outcome = "not-sent"
+		res.Counts["reuse_port_not_possible"]++
+		return
+	}
+	defer b.Close()
+	p.addrs[b.LocalAddr()] = "case"
+	cs := &connState{state: d.State, c: b, addr: b.LocalAddr(), scratch: refctl.NewIdentity("c13-scratch-reuse", p.rnd)}
+	p.cs = cs
+	report := func(what string) {
+		res.Outcome = "closed"
+		ch.claimPanicsQuietly(p)
+		p.addViol("session-lost:remote-address-reused", "a connection from an address and port that an older, not yet closed connection used stops being served: "+what, ch.witness(p))
+	}
+	if d.State == "verified" {
+		if cs.verify, err = b.PairVerify(w.L, w.accLTPK, w.accID, p.rnd); err != nil {
+			report("pair-verify failed: " + err.Error())
+			return
+		}
+		cs.secure = true
+	}
+	for i := 0; i < 6; i++ {
+		var m *refctl.Message
+		var what string
+		switch d.State {
+		case "verified":
+			what = "GET /accessories on the verified connection"
+			m, err = b.Do("GET", "/accessories", "", nil)
+		case "ps0":
+			what = "POST /pair-setup M1"
+			m, err = b.Do("POST", "/pair-setup", refctl.ContentTLV8, refctl.SetupM1())
+		default:
+			_, pub := refctl.NewEphemeral(p.rnd)
+			what = "POST /pair-verify M1"
+			m, err = b.Do("POST", "/pair-verify", refctl.ContentTLV8, refctl.VerifyM1(pub[:]))
+		}
+		if err != nil {
+			if err == refctl.ErrTimeout {
+				if un, _, perr := w.a.Unanswered(b); perr != nil || !un {
+					res.Incon = "reuse-port: watchdog expired and the bounded-progress rule did not confirm a missing answer"
+					return
+				}
+			}
+			report(fmt.Sprintf("honest request %d (%s) was not answered: %v", i+1, what, err))
+			return
+		}
+		if d.State == "verified" && m.Status != 200 {
+			report(fmt.Sprintf("honest request %d (%s) answered %d", i+1, what, m.Status))
+			return
+		}
+		res.Status = m.Status
+		time.Sleep(150 * time.Millisecond) // schedule only: the server closes the old connection about 500 ms after its 400
+	}
+	res.Outcome = "answered"
+	res.SameConn = "ok"
+	res.Counts["reuse_port_connection_served"]++
+	ch.claimPanics(p, "answered")
+}
+
+// claimPanicsQuietly removes the panic lines of this case's connections from the pool without reporting them separately.
+func (ch *child) claimPanicsQuietly(p *pending) {
+	ch.pullPanics()
+	var rest []app.HTTPPanic
+	for _, pn := range ch.panics {
+		if _, ok := p.addrs[pn.Remote]; ok {
+			p.res.Counts["handler_panics"]++
+			p.res.RespHead = "panic: " + pn.Text
+			continue
+		}
+		rest = append(rest, pn)
+	}
+	ch.panics = rest
 }
